@@ -3,6 +3,7 @@ import PolyVerif.Spec.GbStrict
 import PolyVerif.Lemmas.GbBuild
 import PolyVerif.Lemmas.GbCompose
 import PolyVerif.Lemmas.GbLayoutJ
+import PolyVerif.Lemmas.GbBlankRun
 /-
 C03 — GenBank write-then-read is the identity; writing is deterministic; the written text
 follows the flat-file layout.
@@ -55,13 +56,15 @@ example : joinSp (splitChar '\n' (wrapString "aaaa  bbbb".toList 6)) ≠ "aaaa  
 
 /-! ### the written text follows the flat-file layout -/
 
-/-- The layout domain = the JUDGE's layout domain `wfLayoutJ` minus exactly the two known findings
+/-- The layout domain = the JUDGE's layout domain `wfLayoutJ` minus the two known findings
 (every conjunct decidable, see `Spec/GbStrict.lean`):
 locus name a non-empty blank-free word, length digits (or empty), molecule type one of poly's twelve
 (or empty), division one of the eighteen (or empty), date `dd-MMM-yyyy` (or empty); the six metadata
 texts, every reference field and every extra-block value printable ASCII of ANY length without a
 blank at either end, RUNS OF BLANKS INSIDE ALLOWED as long as none of them falls on a wrap point of
-`WrapString(_, 68)` (`!clsBlankRun x`); a reference number that is unset or a blank-free word; extra
+`WrapString(_, 68)` (`!clsBlankRun x`: a SYNTACTIC condition on the value and the writer's wrap column —
+`WrapString` writes as many characters as the text has; no reader occurs in it); a reference number that
+is unset or a blank-free word; extra
 keywords distinct, ≤ 12 columns, beginning with a letter, not one of the writer's own keywords;
 feature keys ≤ 15 columns; qualifier keys distinct blank-free words without `=`; qualifier values
 printable ASCII of any length; cached location text blank-free; sequence 1 ≤ length < 10^9 letters. -/
@@ -69,20 +72,27 @@ def WFLayout (x : Sequence) : Prop := wfLayoutG x = true
 
 instance (x : Sequence) : Decidable (WFLayout x) := by unfold WFLayout; infer_instance
 
-/-- the judge's layout domain is partitioned exactly: the theorem's domain, or one of the two known findings -/
-theorem layout_domain_partition (x : Sequence) (h : wfLayoutJ x = true) :
-    WFLayout x ∨ clsBlankRun x = true ∨ clsNameless x = true := by
-  unfold WFLayout wfLayoutG clsNameless
-  cases hb : clsBlankRun x <;> cases hn : (x.metadata.locus.name == []) <;> simp_all
+/-- **The exact result on the whole judge's layout domain with a locus name** — nothing about blank runs
+is assumed.  For every such record and every map iteration order the independent strict column reader
+recovers from the text `Build` writes exactly `abs (expectedBack x)`: the record in which every metadata
+text is replaced by what its wrapped lines re-join to (`readBack`: a run of blanks that falls on a wrap
+point comes back as one blank) and an unset reference number by the position.  The layout clause below and
+the failure of the class `C03-blank-run-at-wrap` are both corollaries. -/
+theorem build_strict_layout_exact (x : Sequence) (o : MapOrders) (h : wfLayoutJ x = true)
+    (hname : x.metadata.locus.name ≠ []) :
+    strictRead (build x o) = some (abs (expectedBack x)) := by
+  rw [build_deterministic x o MapOrders.id]
+  exact PolyVerif.Lemmas.GbLayoutJ.strict_layout_exact x (PolyVerif.Lemmas.GbBlankRun.facts0_of_wfLayoutJ x h hname)
 
 /-- the former domain (single-spaced metadata) lies inside it -/
 theorem wfLayout_subset (x : Sequence) (h : wfLayout x = true) :
     strictRead (build x MapOrders.id) = some (abs x) :=
   PolyVerif.Lemmas.GbLayoutJ.strict_layout_of_facts x (PolyVerif.Lemmas.GbLayoutJ.facts_of_wfLayout x h)
 
-/-- **Layout clause** (`_partial` only in that it excludes EXACTLY the two known findings
-`C03-blank-run-at-wrap` and `C03-nameless-locus`, for which the witnesses below show that it fails:
-`layout_domain_partition`).  For every record of the judge's layout domain outside those two classes
+/-- **Layout clause** (`_partial` only in that it excludes the two known findings
+`C03-blank-run-at-wrap` and `C03-nameless-locus`; on BOTH classes the clause fails for EVERY record:
+`blank_run_class_fails`, `nameless_class_fails`, hence `layout_clause_iff`).
+For every record of the judge's layout domain outside those two classes
 and every map iteration order, the
 independent strict column reader (keyword = columns 1-12, continuation ⇔ 12 leading blanks, feature
 key in columns 6-20 / location from column 22, qualifier `/k="v"` at column 22, ORIGIN counter in
@@ -96,7 +106,66 @@ text when there is one and `BuildLocationString` of the structure otherwise (`ab
 theorem build_strict_layout_partial (x : Sequence) (o : MapOrders) (h : WFLayout x) :
     strictRead (build x o) = some (abs x) := by
   rw [build_deterministic x o MapOrders.id]
-  exact PolyVerif.Lemmas.GbLayoutJ.strict_layout_of_facts x (PolyVerif.Lemmas.GbLayoutJ.facts_of_wfLayoutG x h)
+  exact PolyVerif.Lemmas.GbLayoutJ.strict_layout_of_facts x (PolyVerif.Lemmas.GbBlankRun.facts_of_wfLayoutG x h)
+
+/-! ### the two excluded classes: syntactic, disjoint, and the clause fails on every record of them -/
+
+/-- **`C03-blank-run-at-wrap` fails the clause, universally.**  For EVERY record of the judge's layout
+domain in the class and every map order, the strict reader does not recover `abs x`: what it recovers
+(`build_strict_layout_exact`) holds strictly fewer characters of metadata text than the record given. -/
+theorem blank_run_class_fails (x : Sequence) (o : MapOrders) (h : wfLayoutJ x = true) (hc : clsBlankRun x = true) :
+    strictRead (build x o) = some (abs (expectedBack x)) ∧ abs (expectedBack x) ≠ abs x
+      ∧ strictRead (build x o) ≠ some (abs x) := by
+  have hname : x.metadata.locus.name ≠ [] := by
+    simp only [clsBlankRun, Bool.and_eq_true, bne_iff_ne, ne_eq] at hc
+    exact hc.1
+  have hlt := PolyVerif.Lemmas.GbBlankRun.recSize_expectedBack_lt x h hc
+  have hne : abs (expectedBack x) ≠ abs x := fun e => by rw [e] at hlt; exact Nat.lt_irrefl _ hlt
+  have hex := build_strict_layout_exact x o h hname
+  exact ⟨hex, hne, fun e => hne (Option.some.inj (hex.symm.trans e))⟩
+
+/-- **the class is syntactic**: a record of the class holds, in one of the metadata texts that `Build`
+passes through `WrapString`, two adjacent blanks (`hasBlankRun`) — and (definition of `clsBlankRun`)
+`WrapString` writes fewer characters for that text than it has.  Nothing else that a reader could lose
+is hidden in the class. -/
+theorem blank_run_class_syntactic (x : Sequence) (h : wfLayoutJ x = true) (hc : clsBlankRun x = true) :
+    ∃ t ∈ metaTexts x, hasBlankRun t = true :=
+  PolyVerif.Lemmas.GbBlankRun.cls_hasBlankRun x h hc
+
+/-- **`C03-nameless-locus` fails the clause, universally** (no other hypothesis on the record): the strict
+reader never returns a record without a locus name, whatever the text. -/
+theorem nameless_class_fails (x : Sequence) (o : MapOrders) (hc : clsNameless x = true) :
+    strictRead (build x o) ≠ some (abs x) := by
+  intro e
+  have := PolyVerif.Lemmas.GbBlankRun.strictRead_name e
+  simp only [clsNameless, beq_iff_eq] at hc
+  exact this hc
+
+/-- the judge's layout domain is PARTITIONED: every record of it lies in exactly one of the theorem's
+domain, the class `C03-blank-run-at-wrap`, the class `C03-nameless-locus` (name-less first: a name-less
+record with a blank run at a wrap point is in the name-less class only) -/
+theorem layout_domain_partition (x : Sequence) (h : wfLayoutJ x = true) :
+    (WFLayout x ∨ clsBlankRun x = true ∨ clsNameless x = true)
+      ∧ ¬(WFLayout x ∧ clsBlankRun x = true) ∧ ¬(WFLayout x ∧ clsNameless x = true)
+      ∧ ¬(clsBlankRun x = true ∧ clsNameless x = true) := by
+  unfold WFLayout wfLayoutG clsNameless
+  have hb : clsBlankRun x = true → (x.metadata.locus.name == []) = false := by
+    intro hc
+    simp only [clsBlankRun, Bool.and_eq_true, bne_iff_ne, ne_eq] at hc
+    simpa using hc.1
+  cases hc : clsBlankRun x <;> cases hn : (x.metadata.locus.name == []) <;> simp_all
+
+/-- **the layout clause holds exactly on the theorem's domain**: on the judge's layout domain, the strict
+reader recovers `abs x` from `build x o` if and only if the record is in neither class -/
+theorem layout_clause_iff (x : Sequence) (o : MapOrders) (h : wfLayoutJ x = true) :
+    strictRead (build x o) = some (abs x) ↔ WFLayout x := by
+  constructor
+  · intro e
+    rcases (layout_domain_partition x h).1 with hw | hc | hc
+    · exact hw
+    · exact absurd e (blank_run_class_fails x o h hc).2.2
+    · exact absurd e (nameless_class_fails x o hc)
+  · exact build_strict_layout_partial x o
 
 /-- a record with wrapped metadata, a reference with sub-blocks, two extra keyword blocks (given
 out of order), a structural join location, a cached location, unsorted qualifiers and 70 bases -/
@@ -156,11 +225,22 @@ theorem blank_run_at_wrap_record_witness :
       ∧ strictRead (build blankRunRecord {}) = some (abs (expectedBack blankRunRecord)) := by
   decide +kernel
 
-/-- `C03-nameless-locus`: a record assembled without a locus name is in the judge's domain and is not
-recovered (the LOCUS line `LOCUS            4 bp …` is read one token to the left) -/
+/-- `C03-nameless-locus`: a record assembled without a locus name is in the judge's domain, in this class
+and not in the other, and is not recovered: the LOCUS line `LOCUS            4 bp …` is read one token to
+the left, exactly as the finding predicts (`expectedBack`: the length is taken for the name) -/
 theorem nameless_locus_witness :
     let x : Sequence := { metadata := { locus := { sequenceLength := "4".toList } }, sequence := "acgt".toList }
-    wfLayoutJ x = true ∧ strictRead (build x {}) ≠ some (abs x) := by
+    wfLayoutJ x = true ∧ clsNameless x = true ∧ clsBlankRun x = false
+      ∧ strictRead (build x {}) ≠ some (abs x)
+      ∧ strictRead (build x {}) = some (abs (expectedBack x)) := by
+  decide +kernel
+
+/-- the two classes do not overlap: the record of the blank-run witness WITHOUT its name is in the
+name-less class only, and what is read back is again the prediction (blank lost AND tokens shifted) -/
+theorem nameless_first_witness :
+    let x : Sequence := { blankRunRecord with metadata := { blankRunRecord.metadata with locus := { sequenceLength := "4".toList } } }
+    wfLayoutJ x = true ∧ clsNameless x = true ∧ clsBlankRun x = false
+      ∧ strictRead (build x {}) = some (abs (expectedBack x)) := by
   decide +kernel
 
 end PolyVerif.Props.C03
